@@ -41,6 +41,15 @@ CLAIMS.update({
     ),
 })
 
+CLAIMS.update({
+    "C16": dict(
+        technique="interprocedural RNG-provenance dataflow: branch-consistent path exploration per (function, literal call-site specialisation), may-draw summaries over the resolved call graph (incl. **kwargs forwarding, function-valued locals, closures, CHA on unique method names), who-may-call rule for np.random.*, typestate check of check_random_state",
+        text="Decides the dataflow clause for every seed-accepting function (those with a random_state/seed parameter, methods of classes storing self.random_state, **kwargs forwarders, closures): on every branch-consistent path each draw is made on a generator derived from that function's seed, each callee that can reach a draw under the call site's literal specialisation is handed the seed (helpers on such a chain must accept one), no np.random.* draw or reseed is reachable, and check_random_state maps None/int/RandomState as documented without touching global state. Together: with an integer seed every draw comes from a generator constructed from that seed inside the call, for every entry point and path.",
+        note="Trusted: NumPy RandomState determinism; user callables (callbacks, callable SVD methods) draw nothing; one table exception (CP_PLSR.fit's rank-1 initialiser, reason in the checker).",
+        design="DESIGN.md §3 C16",
+    ),
+})
+
 NA = {
     "C04": "Equality of floating-point tensors across norms, signs, QR and SVD: no structural necessary condition exists that is not a frozen copy of the formula; the one shape-level clause (transforms must not write into their argument) is decided under C15.",
     "C05": "Singular values, orthonormality and optimal truncation error are numerical facts about LAPACK results; no sound static argument bounds them.",
